@@ -331,14 +331,14 @@ func (env *SpecEnv) seqEq(a, b *SeqV) Term {
 	}
 	c := env.x.ctx
 	// small literal length: expand elementwise (no quantifier)
-	if n, ok := litVal(a.Len); ok && n.Int64() <= 16 {
+	if n, ok := litVal(a.Len); ok && n.Int64() <= 40 {
 		cs := []Term{Eq(a.Len, b.Len)}
 		for i := int64(0); i < n.Int64(); i++ {
 			cs = append(cs, Eq(a.At(IntLit(i)), b.At(IntLit(i))))
 		}
 		return And(cs...)
 	}
-	if n, ok := litVal(b.Len); ok && n.Int64() <= 16 {
+	if n, ok := litVal(b.Len); ok && n.Int64() <= 40 {
 		cs := []Term{Eq(a.Len, b.Len)}
 		for i := int64(0); i < n.Int64(); i++ {
 			cs = append(cs, Eq(a.At(IntLit(i)), b.At(IntLit(i))))
@@ -1034,6 +1034,23 @@ func (env *SpecEnv) call(n *ECall) *Value {
 		return mkInt(v.C[0])
 	case "content":
 		return env.eval(n.Args[0])
+	case "xor8", "or8", "and8":
+		// bitwise operation on octets (bit-blasted; the same term the engine builds for byte operands)
+		a, b := env.asInt(env.eval(n.Args[0])), env.asInt(env.eval(n.Args[1]))
+		op := map[string]string{"xor8": "^", "or8": "|", "and8": "&"}[id.Name]
+		return mkInt(bitop(x.ctx, op, a, b, 8))
+	case "as":
+		// as(i, "*pkg.T"): the value behind interface i viewed as a pointer of that type (meaningful when typeis holds)
+		v := env.eval(n.Args[0])
+		ts, ok := n.Args[1].(*EStr)
+		if !ok || v.T == nil || !isIface(v.T) {
+			sfail("as(iface, \"*pkg.T\")")
+		}
+		t := x.eng.findType(ts.V)
+		if t == nil || !isPointer(t) {
+			sfail("as: unknown pointer type %s", ts.V)
+		}
+		return &Value{T: t, C: []Term{v.C[1]}}
 	case "statictype":
 		// statictype(x, "T"): is the static Go type of x (at this instantiation) T? decided at translation time
 		v := env.eval(n.Args[0])
